@@ -76,7 +76,7 @@ type e3Result struct {
 
 // e3Run runs the test binary with the given spec (own process group, race
 // reports to <work>/race-app.<pid>, watchdog).
-func e3Run(r *core.Run, bin, name string, spec interface{}, timeout time.Duration) *e3Result {
+func e3Run(r *core.Run, bin, name string, spec interface{}, timeout time.Duration, env ...string) *e3Result {
 	res := &e3Result{}
 	sb, err := json.Marshal(spec)
 	if err != nil {
@@ -105,6 +105,7 @@ func e3Run(r *core.Run, bin, name string, spec interface{}, timeout time.Duratio
 		"GORACE=halt_on_error=0 log_path="+filepath.Join(r.WorkDir, "race-app"),
 		"VERIF_SPEC="+specPath, "VERIF_OUT="+outPath, "VERIF_WORK="+r.WorkDir,
 		"GAE_APPLICATION=s~verif-app", "GAE_MODULE_NAME=default", "GAE_ENV=", "GAE_SERVICE=")
+	cmd.Env = append(cmd.Env, env...)
 	cmd.SysProcAttr = &syscall.SysProcAttr{Setpgid: true, Pdeathsig: syscall.SIGKILL}
 	if err := cmd.Start(); err != nil {
 		res.Err = err
